@@ -1,6 +1,8 @@
 (** C28 — syntax of the source-level dispatch of internal/hybridre2 (Regexp.FindAllIndex) as read by
     translator/hybridre2 into Generated/HybridRe2.v.  Model only: no proofs here. *)
 
+From Coq Require Import ZArith.
+
 (** the two regexp engines behind the package *)
 Inductive engine := Grafana | RE2.
 
@@ -22,3 +24,16 @@ Inductive dtree :=
 | DRet (e : engine) (input limit : argsrc)
 | DIf (c : dcond) (t f : dtree)
 | DOther.
+
+(** ---- how threshold() reads the environment variable, path by path.
+    [TSet]: the variable is set (second result of os.LookupEnv on the variable's name); [TParsedOk]: `err == nil` for
+    strconv.ParseInt(<the variable's text>, 10, 64); [VParsed]: the number that call returned. *)
+Inductive tval := VParsed | VConst (z : Z).
+Inductive tcond :=
+| TTrue | TFalse | TSet | TParsedOk
+| TNot (c : tcond) | TAnd (c1 c2 : tcond) | TOr (c1 c2 : tcond)
+| TOpaque (k : nat).
+Inductive ttree :=
+| TRet (v : tval)
+| TIf (c : tcond) (t f : ttree)
+| TOther.
